@@ -963,7 +963,7 @@ def units_prepare(ctx, B):
     dsl = "[" + "; ".join(cdict(d) for d in ds) + "]"
     h = {}
     h["pairs"] = B.add("(let ds := %s in map (fun x => map (fun y => enc_res (nested_combine text [x; y])) ds) ds)" % dsl)
-    ntr = 600 if quick else 6000
+    ntr = 400 if quick else 6000
     tuples = [tuple(rng.randrange(n) for _ in range(rng.choice([3, 3, 4]))) for _ in range(ntr)]
     h["tuples"] = []
     for chunk in coq.chunked(tuples, 150):
@@ -984,7 +984,7 @@ def units_prepare(ctx, B):
     maxlen = 4 if quick else 5
     h["split"] = [B.add("(map (fun s => match split_colon_separated_string s with Some (ks, v) => Some (map enc_text ks, enc_text v) | None => None end) (%s %d))"
                         % (COQ_ENUM % calpha(ALPHA), k)) for k in range(maxlen + 1)]
-    h["lines"] = [B.add("(map (fun s => map enc_text (splitlines s)) (%s %d))" % (COQ_ENUM % calpha(ALPHA_LINES), k)) for k in range(6)]
+    h["lines"] = [B.add("(map (fun s => map enc_text (splitlines s)) (%s %d))" % (COQ_ENUM % calpha(ALPHA_LINES), k)) for k in range(5 if quick else 6)]
     h["strip"] = [B.add("(map (fun s => enc_text (strip s)) (%s %d))" % (COQ_ENUM % calpha(ALPHA_STRIP), k)) for k in range(5)]
     h["space"] = B.add("(filter (fun c => is_space (N.of_nat c)) (seq 0 12600), filter (fun c => is_linebreak (N.of_nat c)) (seq 0 12600))")
     # inline scanner on a fixed base config
@@ -999,7 +999,7 @@ def units_prepare(ctx, B):
         for v in vals:
             raws.append("-- sqlfluff:%s:%s\nselect 1\n" % (k, v))
             raws.append("select 1;\n--sqlfluff:%s : %s  \n" % (k, v))
-    for _ in range(100 if quick else 1200):
+    for _ in range(60 if quick else 1200):
         sep = rng.choice(LINESEPS)
         raws.append("".join(l + sep for l in gen_inline(rng, True)) + rng.choice(["", "select 1", "select 1\n"]))
     h["inline"] = []
@@ -1175,7 +1175,7 @@ def ladder(ctx, root):
     subsets = [(1 << i, 1 << ((i + 5) % nl)) for i in range(nl)]
     subsets += [(((1 << nl) - 1) & ~(1 << i), ((1 << nl) - 1)) for i in range(nl)] + [(0, 0), ((1 << nl) - 1, 0)]
     if ctx.tier == "quick":
-        subsets += [(rng.randrange(1 << nl), rng.randrange(1 << nl)) for _ in range(150)]
+        subsets += [(rng.randrange(1 << nl), rng.randrange(1 << nl)) for _ in range(100)]
     else:
         subsets += [(s, rng.randrange(1 << nl)) for s in range(1 << nl)]
     keys = [("core", "max_line_length", 100), ("indentation", "tab_space_size", 20)]   # value of layer i = base + i
@@ -1312,6 +1312,13 @@ def fixed_scenarios(rng):
     sc.add_file(rng, sc.cwd, ".sqlfluff", [S("core", "max_line_length", "60")])
     sc.sql = [(sc.cwd + ("q.sql",), "-- sqlfluff:dialect:ansi\nselect 1\n"), (sc.cwd + ("r.sql",), "select 1\n")]
     out.append(sc)
+    # ... and a whole run of such files (goes through Linter.lint_paths in several orders and through the CLI)
+    sc = base("inline-only-dialect-run")
+    sc.add_file(rng, sc.cwd, ".sqlfluff", [S("core", "max_line_length", "60")])
+    sc.mkdir(sc.cwd + ("a",))
+    sc.sql = [(sc.cwd + ("q.sql",), "-- sqlfluff:dialect:ansi\nselect 1\n"), (sc.cwd + ("a", "r.sql"), "--sqlfluff:dialect:postgres\n" + SQL_BODIES[1]),
+              (sc.cwd + ("s.sql",), "select 0;\n-- sqlfluff:dialect:ansi\n" + SQL_BODIES[3])]
+    out.append(sc)
     # file outside the working directory; working directory outside home
     sc = base("file-outside-cwd")
     sc.cwd = ("srv", "proj", "app")
@@ -1364,7 +1371,7 @@ def _run(ctx, coq_ok, base_tmp):
 
     # ---- scenarios: generate, write, build the Coq terms
     scs = fixed_scenarios(rng)
-    n_rand = 60 if quick else 800
+    n_rand = 40 if quick else 800
     for i in range(n_rand):
         scs.append(gen_scenario(rng, malformed=(i % 4 == 3), conflicts=(i % 3 != 0)))
     B = Batch()
@@ -1401,7 +1408,7 @@ def _run(ctx, coq_ok, base_tmp):
         # ---- the implementation on every scenario
         t_impl0 = coq.now()
         n_hist = 0
-        max_hist = 8 if quick else 60
+        max_hist = 6 if quick else 60
         for si, (sc, info) in enumerate(zip(scs, infos)):
             root = info["root"]
             with Redirect(os.path.join(root, *sc.home), None if sc.xdg is None else os.path.join(root, *sc.xdg), os.path.join(root, *sc.cwd)):
@@ -1474,7 +1481,7 @@ def _run(ctx, coq_ok, base_tmp):
                         vl.append(r)
                     info["via_linter"] = vl
                 # histories
-                eligible = (root_cfg is not None and root_cfg.get("dialect") is not None and not sc.decoys
+                eligible = (root_cfg is not None and not sc.decoys
                             and all(r[0] == "ok" for r in (info["via_linter"] or [("no",)]))
                             # discovery parses every config file between the working directory and the file for ignore_paths
                             # (also under ignore_local_config): a file that does not load is outside this property
